@@ -7,7 +7,7 @@
    analysis, knot by induction on the fuel; `gshape` implies the check by induction on the tree. *)
 From TsRs Require Import Base.Str Base.Outcome Gen.Tables Model.Case Model.TsAst Model.Rust Model.Docs Model.Gen
   Spec.RtyInd Spec.TsGrammar Spec.TsSyn Spec.TsFree Spec.TsSem Spec.GenClean
-  Model.Path Model.Merge Model.GenExport Proofs.Gen_base_proofs Proofs.Sem_base_proofs Proofs.Docs_proofs Proofs.Grammar_proofs Proofs.Grammar_export_proofs Proofs.Path_clean_proofs.
+  Model.Path Model.Merge Model.GenExport Proofs.Gen_base_proofs Proofs.Sem_base_proofs Proofs.Docs_proofs Proofs.Grammar_proofs Proofs.Grammar_export_proofs Proofs.Path_clean_proofs Proofs.Merge_text_proofs.
 From Coq Require Import List NArith Bool Lia.
 Import ListNotations.
 Open Scope N_scope.
@@ -67,35 +67,126 @@ Qed.
 Lemma map_nil_iff {A B} (f : A -> B) l : is_nil (map f l) = is_nil l.
 Proof. destruct l; reflexivity. Qed.
 
-Theorem gshape_checked : forall t, gshape t = true -> print (norm t) = print t /\ syn_ok (norm t) = true.
+(* ---- flattened struct objects ---- *)
+Definition sobj0 (t : tsty) : bool := match t with TObj OStruct (_ :: _) => true | _ => false end.
+
+Lemma norm_sobj x : is_sobj x = true -> sobj0 (norm x) = true.
+Proof.
+  destruct x as [| | | | | | | |st ps| | | | | | | |u|]; try discriminate.
+  - destruct st; [|discriminate]. destruct ps; [discriminate|]. reflexivity.
+  - destruct u as [| | | | | | | |st ps| | | | | | | | |]; try discriminate. destruct st; [|discriminate]. destruct ps; [discriminate|]. reflexivity.
+Qed.
+
+Lemma flat_inter_sobj L : forallb sobj0 L = true -> flat_inter L = L.
+Proof.
+  induction L as [|x L IH]; [reflexivity|]. cbn [forallb]. intros H. apply andb_true_iff in H as [H1 H2].
+  unfold flat_inter in *. cbn [flat_map]. rewrite (IH H2). destruct x; try discriminate. reflexivity.
+Qed.
+
+Lemma sobj0_okop L : forallb sobj0 L = true -> Forall okop L.
+Proof.
+  induction L as [|x L IH]; cbn [forallb]; intros H; constructor; apply andb_true_iff in H as [H1 H2]; [|exact (IH H2)].
+  destruct x as [| | | | | | | |st ps| | | | | | | | |]; try discriminate. destruct st; [|discriminate]. destruct ps; [discriminate|]. cbn. discriminate.
+Qed.
+
+Lemma merge_all_objects : forall rest cur, sobj0 cur = true -> forallb sobj0 rest = true -> forallb syn_ok (cur :: rest) = true ->
+  exists qs, merge_from cur rest = [TObj OStruct qs] /\ syn_ok (TObj OStruct qs) = true.
+Proof.
+  induction rest as [|x r IH]; intros cur Hc Hr Hs.
+  - destruct cur as [| | | | | | | |st ps| | | | | | | | |]; try discriminate. destruct st; [|discriminate]. exists ps. split; [reflexivity|].
+    cbn [forallb] in Hs. rewrite andb_true_r in Hs. exact Hs.
+  - cbn [forallb] in Hr, Hs. apply andb_true_iff in Hr as [Hx Hr]. apply andb_true_iff in Hs as [Hs1 Hs]. apply andb_true_iff in Hs as [Hs2 Hs3].
+    destruct cur as [| | | | | | | |st ps| | | | | | | | |]; try discriminate. destruct st; [|discriminate].
+    destruct x as [| | | | | | | |st qs| | | | | | | | |]; try discriminate. destruct st; [|discriminate].
+    cbn [merge_from]. apply IH; [destruct ps; [discriminate | reflexivity] | exact Hr|].
+    cbn [forallb]. rewrite Hs3, andb_true_r. cbn [TsSyn.syn_ok] in Hs1, Hs2 |- *. rewrite forallb_app, Hs1, Hs2. reflexivity.
+Qed.
+
+Lemma unwrap_obj ps : unwrap_text (print (TObj OStruct ps)) = print (TObj OStruct ps).
+Proof.
+  rewrite print_sobj. unfold unwrap_text. cbn [app starts_with]. change (40 =? 123) with false. cbn [andb].
+  unfold trim_chars. cbn [trim_start_chars]. change (is_sp_ws 123) with false. cbv iota.
+  unfold trim_end_chars. change (123 :: 32 :: sbody ps ++ [32; 125]) with ([123; 32] ++ sbody ps ++ [32; 125]).
+  rewrite !rev_app_distr. cbn [rev app trim_start_chars]. change (is_sp_ws 125) with false. cbv iota.
+  change (125 :: 32 :: rev (sbody ps) ++ [32; 123]) with (rev [32; 125] ++ rev (sbody ps) ++ rev [123; 32]).
+  rewrite <- !rev_app_distr, rev_involutive, <- app_assoc. reflexivity.
+Qed.
+
+Definition Q (t : tsty) : Prop := gshape t = true -> print (norm t) = print t /\ syn_ok (norm t) = true.
+Definition P (t : tsty) : Prop := Q t /\ match t with TInter l => Forall Q l | TUnwrap x => Q x | _ => True end.
+
+Lemma PQ l : Forall P l -> Forall Q l.
+Proof. apply Forall_impl. intros t H. exact (proj1 H). Qed.
+Lemma PQp (ps : list (phead * tsty)) : Forall (fun p => P (snd p)) ps -> Forall (fun p => Q (snd p)) ps.
+Proof. apply Forall_impl. intros t H. exact (proj1 H). Qed.
+
+Lemma sobj_facts l : forallb (fun x => is_sobj x && gshape x) l = true -> Forall Q l ->
+  forallb sobj0 (map norm l) = true /\ map print (map norm l) = map print l /\ forallb syn_ok (map norm l) = true.
+Proof.
+  intros H HQ. revert H. induction HQ as [|x l Hx _ IH]; cbn [forallb map]; intros H; [repeat split; reflexivity|].
+  apply andb_true_iff in H as [H1 H2]. apply andb_true_iff in H1 as [Hs Hg]. destruct (Hx Hg) as [Hp Hsy]. destruct (IH H2) as (I1 & I2 & I3).
+  rewrite (norm_sobj x Hs), I1, Hp, I2, Hsy, I3. repeat split; reflexivity.
+Qed.
+
+Lemma merged_inter l : l <> [] -> forallb (fun x => is_sobj x && gshape x) l = true -> Forall Q l ->
+  print (norm (TMerged (TInter l))) = print (TMerged (TInter l)) /\ syn_ok (norm (TMerged (TInter l))) = true.
+Proof.
+  intros Hne H HQ. destruct (sobj_facts l H HQ) as (Hs & Hp & Hsy).
+  change (norm (TMerged (TInter l))) with (inter_of (merge_adjacent (flat_inter (map norm l)))). rewrite (flat_inter_sobj _ Hs).
+  assert (HL : map norm l <> []) by (destruct l; [contradiction | discriminate]).
+  split.
+  - rewrite <- (glue_is_structural_merge _ HL (sobj0_okop _ Hs)).
+    change (print (TMerged (TInter (map norm l)))) with (glue (map print (map norm l))). rewrite Hp. reflexivity.
+  - destruct (map norm l) as [|c r]; [contradiction|]. cbn [forallb] in Hs. apply andb_true_iff in Hs as [Hc Hr].
+    destruct (merge_all_objects r c Hc Hr Hsy) as (qs & Hm & Hq). cbn [merge_adjacent]. rewrite Hm. exact Hq.
+Qed.
+
+Lemma merged_unwrap x : is_sobj x = true -> gshape x = true -> Q x ->
+  print (norm (TMerged (TUnwrap x))) = print (TMerged (TUnwrap x)) /\ syn_ok (norm (TMerged (TUnwrap x))) = true.
+Proof.
+  intros Hs Hg HQ. destruct (HQ Hg) as [Hp Hsy]. pose proof (norm_sobj x Hs) as Hn.
+  change (norm (TMerged (TUnwrap x))) with (match (match norm x with TParen v => v | u' => u' end) with TInter l => inter_of (merge_adjacent (flat_inter l)) | u' => u' end).
+  change (print (TMerged (TUnwrap x))) with (unwrap_text (print x)).
+  destruct (norm x) as [| | | | | | | |st ps| | | | | | | | |]; try discriminate. destruct st; [|discriminate].
+  split; [|exact Hsy]. rewrite <- Hp. symmetry. apply unwrap_obj.
+Qed.
+
+Theorem gshape_checked_strong : forall t, P t.
 Proof.
   induction t as [n|n|n|n args IH|u IH| | |ts IH|st ps IH|k v IHk IHv|a b IHa IHb|ts IH|ts IH|u IH|l|r|u IH|u IH] using tsty_ind';
-    cbn [GenClean.gshape]; intros H; try discriminate.
+    (split; [unfold Q; cbn [GenClean.gshape]; intros H; try discriminate | try exact I]).
   - split; [reflexivity | exact H].
   - split; [reflexivity | exact H].
   - split; [reflexivity | exact H].
-  - apply andb_true_iff in H as [Hn Ha]. destruct (map_print_norm _ IH Ha) as [Hp Hs]. cbn [norm TsSyn.syn_ok]. split.
+  - apply andb_true_iff in H as [Hn Ha]. destruct (map_print_norm _ (PQ _ IH) Ha) as [Hp Hs]. cbn [norm TsSyn.syn_ok]. split.
     + apply print_ref_ext. exact Hp.
     + rewrite Hn, Hs. reflexivity.
-  - destruct (IH H) as [Hp Hs]. cbn [norm print TsSyn.syn_ok]. rewrite Hp. split; [reflexivity | exact Hs].
+  - destruct (proj1 IH H) as [Hp Hs]. cbn [norm print TsSyn.syn_ok]. rewrite Hp. split; [reflexivity | exact Hs].
   - split; reflexivity.
   - split; reflexivity.
-  - destruct (map_print_norm _ IH H) as [Hp Hs]. cbn [norm print TsSyn.syn_ok]. rewrite Hp. split; [reflexivity | exact Hs].
-  - destruct (props_print_norm _ IH H) as [Hp Hs]. cbn [norm TsSyn.syn_ok]. split; [apply print_obj_ext; exact Hp | exact Hs].
-  - apply andb_true_iff in H as [H1 H2]. destruct (IHk H1) as [Hp1 Hs1]. destruct (IHv H2) as [Hp2 Hs2].
+  - destruct (map_print_norm _ (PQ _ IH) H) as [Hp Hs]. cbn [norm print TsSyn.syn_ok]. rewrite Hp. split; [reflexivity | exact Hs].
+  - destruct (props_print_norm _ (PQp _ IH) H) as [Hp Hs]. cbn [norm TsSyn.syn_ok]. split; [apply print_obj_ext; exact Hp | exact Hs].
+  - apply andb_true_iff in H as [H1 H2]. destruct (proj1 IHk H1) as [Hp1 Hs1]. destruct (proj1 IHv H2) as [Hp2 Hs2].
     cbn [norm print TsSyn.syn_ok]. rewrite Hp1, Hp2, Hs1, Hs2. split; reflexivity.
-  - apply andb_true_iff in H as [H1 H2]. destruct (IHa H1) as [Hp1 Hs1]. destruct (IHb H2) as [Hp2 Hs2].
+  - apply andb_true_iff in H as [H1 H2]. destruct (proj1 IHa H1) as [Hp1 Hs1]. destruct (proj1 IHb H2) as [Hp2 Hs2].
     cbn [norm print TsSyn.syn_ok]. rewrite Hp1, Hp2, Hs1, Hs2. split; reflexivity.
-  - apply andb_true_iff in H as [H1 H2]. destruct (map_print_norm _ IH H2) as [Hp Hs]. cbn [norm print TsSyn.syn_ok].
+  - apply andb_true_iff in H as [H1 H2]. destruct (map_print_norm _ (PQ _ IH) H2) as [Hp Hs]. cbn [norm print TsSyn.syn_ok].
     rewrite Hp, Hs, map_nil_iff, H1. split; reflexivity.
-  - apply andb_true_iff in H as [H1 H2]. destruct (map_print_norm _ IH H2) as [Hp Hs]. cbn [norm print TsSyn.syn_ok].
+  - apply andb_true_iff in H as [H1 H2]. destruct (map_print_norm _ (PQ _ IH) H2) as [Hp Hs]. cbn [norm print TsSyn.syn_ok].
     rewrite Hp, Hs, map_nil_iff, H1. split; reflexivity.
-  - destruct (IH H) as [Hp Hs]. cbn [norm print TsSyn.syn_ok]. rewrite Hp. split; [reflexivity | exact Hs].
+  - exact (PQ _ IH).
+  - destruct (proj1 IH H) as [Hp Hs]. cbn [norm print TsSyn.syn_ok]. rewrite Hp. split; [reflexivity | exact Hs].
   - split; [reflexivity | exact H].
-  - (* the merge marker around a struct object *)
-    apply andb_true_iff in H as [Ho Hu]. destruct u as [| | | | | | | |st ps| | | | | | | | |]; try discriminate.
-    destruct (IH Hu) as [Hp Hs]. cbn [norm] in Hp, Hs |- *. cbn [print] in Hp |- *. split; [exact Hp | exact Hs].
+  - (* the merge marker *)
+    destruct u as [| | | | | | | |st ps| | | |ts| | | | |x]; try discriminate.
+    + destruct (proj1 IH H) as [Hp Hs]. cbn [norm] in Hp, Hs |- *. cbn [print] in Hp |- *. split; [exact Hp | exact Hs].
+    + apply andb_true_iff in H as [Hne Ha]. apply merged_inter; [destruct ts; [discriminate | discriminate] | exact Ha | exact (proj2 IH)].
+    + apply andb_true_iff in H as [Hs Hg]. apply merged_unwrap; [exact Hs | exact Hg | exact (proj2 IH)].
+  - exact (proj1 IH).
 Qed.
+
+Theorem gshape_checked : forall t, gshape t = true -> print (norm t) = print t /\ syn_ok (norm t) = true.
+Proof. intros t. exact (proj1 (gshape_checked_strong t)). Qed.
 
 Corollary gshape_syn_okn t : gshape t = true -> syn_okn is_alnum is_numeric t = true.
 Proof.
@@ -196,12 +287,16 @@ Proof. intros H. apply Forall2_forallb. apply Forall_forall. intros x _ Hx y. ap
 
 End S.
 
-Lemma lookup_clean is_upper is_alnum is_numeric R id d :
-  clean_envb is_upper is_alnum is_numeric R = true -> lookup R id = Some d -> def_cleanb is_upper is_alnum is_numeric d = true.
+Lemma lookup_clean_gen is_upper is_alnum is_numeric R0 R id d :
+  forallb (fun p => def_cleanb is_upper is_alnum is_numeric R0 (snd p)) R = true -> lookup R id = Some d ->
+  def_cleanb is_upper is_alnum is_numeric R0 d = true.
 Proof.
-  unfold clean_envb. induction R as [|[k d'] r IH]; cbn [lookup forallb snd]; intros HR H; [discriminate|].
+  induction R as [|[k d'] r IH]; cbn [lookup forallb snd]; intros HR H; [discriminate|].
   apply andb_true_iff in HR as [H1 H2]. destruct (str_eqb k id); [inversion H; subst; exact H1 | apply IH; assumption].
 Qed.
+Lemma lookup_clean is_upper is_alnum is_numeric R id d :
+  clean_envb is_upper is_alnum is_numeric R = true -> lookup R id = Some d -> def_cleanb is_upper is_alnum is_numeric R d = true.
+Proof. apply lookup_clean_gen. Qed.
 
 (* ---- the generator ---------------------------------------------------------------------------------- *)
 Section Layers.
@@ -215,11 +310,13 @@ Notation rty_clean := (rty_clean is_alnum is_numeric).
 Notation head_okb := (head_okb is_alnum is_numeric).
 Notation type_nameb := (type_nameb is_alnum is_numeric).
 Notation decl_nameb := (decl_nameb is_alnum is_numeric).
-Notation def_cleanb := (def_cleanb is_upper is_alnum is_numeric).
-Notation variant_cleanb := (variant_cleanb is_upper is_alnum is_numeric).
-Notation field_cleanb := (field_cleanb is_alnum is_numeric).
+Notation def_cleanb := (def_cleanb is_upper is_alnum is_numeric R).
+Notation variant_cleanb := (variant_cleanb is_upper is_alnum is_numeric R).
+Notation field_cleanb := (field_cleanb is_alnum is_numeric R).
+Notation flat_target := (flat_target is_alnum is_numeric R).
+Notation flat_ok := (fun x : tsty => is_sobj x && gshape x).
 Notation tfield_cleanb := (tfield_cleanb is_alnum is_numeric).
-Notation shape_cleanb := (shape_cleanb is_alnum is_numeric).
+Notation shape_cleanb := (shape_cleanb is_alnum is_numeric R).
 Notation param_cleanb := (param_cleanb is_alnum is_numeric).
 Notation name_of := (name_of R).
 
@@ -275,7 +372,8 @@ Qed.
 
 Section Lib.
 Variable g : dgen.
-Hypothesis Hg : forall id d args r, lookup R id = Some d -> forallb rty_clean args = true -> g d args = Ok r -> gshape (fst r) = true.
+Hypothesis Hg : forall id d args r, lookup R id = Some d -> forallb rty_clean args = true -> g d args = Ok r ->
+  gshape (fst r) = true /\ (flat_simple d = true -> exists x, snd r = Some x /\ flat_ok x = true).
 
 Lemma lib_inline_shape : forall t, rty_clean t = true -> forall a, lib_inline R g t = Ok a -> gshape a = true.
 Proof.
@@ -292,7 +390,16 @@ Proof.
   - exact (IH Hc a H).
   - apply andb_true_iff in Hc as [H1 H2]. apply bind_ok in H as (x & Hx & H). apply bind_ok in H as (y & Hy & H). inversion H.
     cbn [GenClean.gshape]. rewrite (IHt H1 x Hx), (IHe H2 y Hy). reflexivity.
-  - destruct (lookup R id) as [d|] eqn:Hl; [|discriminate]. apply omap_ok in H as (r & Hr & ->). exact (Hg id d args r Hl Hc Hr).
+  - destruct (lookup R id) as [d|] eqn:Hl; [|discriminate]. apply omap_ok in H as (r & Hr & ->). exact (proj1 (Hg id d args r Hl Hc Hr)).
+Qed.
+
+Lemma lib_flat_shape : forall t, flat_target t = true -> forall x, lib_flat R g t = Ok x -> flat_ok x = true.
+Proof.
+  induction t; cbn [GenClean.flat_target Gen.lib_flat]; intros Hf x H; try discriminate.
+  - exact (IHt Hf x H).
+  - destruct (lookup R id) as [d|] eqn:Hl; [|discriminate]. apply andb_true_iff in Hf as [Hs Ha].
+    apply bind_ok in H as (r & Hr & H). destruct (Hg id d args r Hl Ha Hr) as [_ Hfl]. destruct (Hfl Hs) as (x0 & Hx0 & Hok).
+    rewrite Hx0 in H. inversion H; subst. exact Hok.
 Qed.
 End Lib.
 
@@ -348,12 +455,30 @@ Proof.
   destruct (v_skip x) eqn:Hs; cbn [negb forallb]; [apply IH; exact H2|]. rewrite H1, Hs. cbn [negb andb]. apply IH. exact H2.
 Qed.
 
-Lemma no_flats ra fs : forallb (field_cleanb ra) fs = true -> filter is_flat (live fs) = [].
+Lemma forallb_filter_and {A} (f g : A -> bool) l : forallb f l = true -> forallb (fun x => f x && g x) (filter g l) = true.
 Proof.
-  unfold live. induction fs as [|x l IH]; cbn [forallb filter]; intros H; [reflexivity|]. apply andb_true_iff in H as [H1 H2].
-  destruct (f_skip x) eqn:Hs; cbn [negb]; [apply IH; exact H2|]. cbn [filter].
-  unfold GenClean.field_cleanb in H1. rewrite Hs in H1. cbn [orb] in H1. apply andb_true_iff in H1 as [H1 _]. apply andb_true_iff in H1 as [H1 _].
-  apply andb_true_iff in H1 as [_ Hf]. apply negb_true_iff in Hf. unfold is_flat. rewrite Hf. cbn [andb]. apply IH. exact H2.
+  induction l as [|x l IH]; cbn [forallb filter]; intros H; [reflexivity|]. apply andb_true_iff in H as [H1 H2].
+  destruct (g x) eqn:Hg; cbn [forallb]; [rewrite H1, Hg|]; apply IH; exact H2.
+Qed.
+
+Lemma filter_neg_all {A} (g : A -> bool) l : filter g l = [] -> filter (fun x => negb (g x)) l = l.
+Proof.
+  induction l as [|x l IH]; cbn [filter]; intros H; [reflexivity|]. destruct (g x); [discriminate H|]. cbn [negb]. rewrite (IH H). reflexivity.
+Qed.
+
+(* flatten targets survive the instantiation of the host *)
+Lemma flat_target_rsubst args : forallb rty_clean args = true -> forall t, flat_target t = true -> flat_target (rsubst args t) = true.
+Proof.
+  intros Ha. induction t; cbn [GenClean.flat_target rsubst]; intros H; try discriminate.
+  - exact (IHt H).
+  - destruct (lookup R id) as [d|]; [|discriminate]. apply andb_true_iff in H as [H1 H2]. rewrite H1. cbn [andb].
+    apply map_clean; [|exact H2]. apply Forall_forall. intros x _. apply rsubst_clean. exact Ha.
+Qed.
+Lemma flat_target_inner t : flat_target t = true -> option_inner t = t.
+Proof. destruct t; try discriminate; reflexivity. Qed.
+Lemma flat_target_field_ty args opt fl : forallb rty_clean args = true -> flat_target (f_ty fl) = true -> flat_target (field_ty args opt fl) = true.
+Proof.
+  intros Ha Hf. pose proof (flat_target_rsubst args Ha _ Hf) as H. unfold field_ty. destruct (snd _); [exact H|]. rewrite (flat_target_inner _ H). exact H.
 Qed.
 
 Definition tag_ok (tag : option (str * str)) : bool := match tag with Some (t, n) => cleanb t && cleanb n | None => true end.
@@ -361,18 +486,30 @@ Definition tag_ok (tag : option (str * str)) : bool := match tag with Some (t, n
 Section Def.
 Variable inl flt : rty -> outcome tsty.
 Hypothesis Hinl : forall t a, rty_clean t = true -> inl t = Ok a -> gshape a = true.
+Hypothesis Hflt : forall t x, flat_target t = true -> flt t = Ok x -> flat_ok x = true.
 Variable args : list rty.
 Hypothesis Hargs : forallb rty_clean args = true.
 
-Lemma prop_of_shape ra opt fl p : field_cleanb ra fl && negb (f_skip fl) = true ->
+Lemma prop_of_shape ra opt fl p : field_cleanb ra fl && negb (f_skip fl) && negb (is_flat fl) = true ->
   prop_of is_alnum is_numeric R inl args ra opt fl = Ok p -> head_okb (fst p) && gshape (snd p) = true.
 Proof.
-  intros Hc H. apply andb_true_iff in Hc as [Hc Hs]. apply negb_true_iff in Hs. unfold GenClean.field_cleanb in Hc. rewrite Hs in Hc. cbn [orb] in Hc.
-  apply andb_true_iff in Hc as [Hc Hk]. apply andb_true_iff in Hc as [Hc Ht]. apply andb_true_iff in Hc as [Hn _].
-  unfold prop_of in H. destruct (f_type fl); [discriminate Hn|]. apply bind_ok in H as (x & Hx & H). inversion H. cbn [fst snd].
+  intros Hc H. apply andb_true_iff in Hc as [Hc Hnf]. apply andb_true_iff in Hc as [Hc Hs]. apply negb_true_iff in Hs.
+  unfold GenClean.field_cleanb in Hc. rewrite Hs in Hc. cbn [orb] in Hc. apply andb_true_iff in Hc as [Hn Hc].
+  unfold is_flat in Hnf. unfold prop_of in H. destruct (f_type fl); [discriminate Hn|]. rewrite andb_true_r in Hnf. apply negb_true_iff in Hnf.
+  rewrite Hnf in Hc. apply andb_true_iff in Hc as [Ht Hk].
+  apply bind_ok in H as (x & Hx & H). inversion H. cbn [fst snd].
   unfold TsSyn.head_okb. cbn [p_text p_docs]. rewrite (raw_head_ok is_alnum is_numeric _ Hk). unfold field_docs. rewrite docs_always_ok. cbn [andb].
   pose proof (field_ty_clean args opt fl Hargs Ht) as Hty.
   destruct (f_inline fl); [exact (Hinl _ _ Hty Hx) | exact (name_of_shape _ Hty _ Hx)].
+Qed.
+
+Lemma flat_of_shape ra opt fl x : field_cleanb ra fl && negb (f_skip fl) && is_flat fl = true ->
+  flt (field_ty args opt fl) = Ok x -> flat_ok x = true.
+Proof.
+  intros Hc H. apply andb_true_iff in Hc as [Hc Hf]. apply andb_true_iff in Hc as [Hc Hs]. apply negb_true_iff in Hs.
+  unfold GenClean.field_cleanb in Hc. rewrite Hs in Hc. cbn [orb] in Hc. apply andb_true_iff in Hc as [_ Hc].
+  unfold is_flat in Hf. apply andb_true_iff in Hf as [Hf _]. rewrite Hf in Hc.
+  exact (Hflt _ _ (flat_target_field_ty args opt fl Hargs Hc) H).
 Qed.
 
 Lemma value_ty_shape fl x : tfield_cleanb fl && negb (f_skip fl) = true -> value_ty R inl args fl = Ok x -> gshape x = true.
@@ -383,6 +520,8 @@ Proof.
   destruct (f_inline fl); [exact (Hinl _ _ Hty H) | exact (name_of_shape _ Hty _ H)].
 Qed.
 
+(* the result of a struct / struct variant with named fields; and, when nothing is flattened into it and it has a property,
+   what it hands to a host that flattens it *)
 Lemma named_body_shape ra opt tag fs r : forallb (field_cleanb ra) fs = true -> tag_ok tag = true ->
   bind (omap_list (prop_of is_alnum is_numeric R inl args ra opt) (filter (fun fl => negb (is_flat fl)) (live fs))) (fun props =>
   bind (omap_list (fun fl => flt (field_ty args opt fl)) (filter is_flat (live fs))) (fun flats =>
@@ -396,28 +535,51 @@ Lemma named_body_shape ra opt tag fs r : forallb (field_cleanb ra) fs = true -> 
   | [], [x] => Ok (TMerged (TUnwrap x), Some (TMerged (TInter flats)))
   | [], _ => Ok (TMerged (TInter flats), Some (TMerged (TInter flats)))
   | _, _ => Ok (TMerged (TInter (obj :: flats)), Some (TMerged (TInter (obj :: flats))))
-  end)) = Ok r -> gshape (fst r) = true.
+  end)) = Ok r ->
+  gshape (fst r) = true /\
+  (filter is_flat (live fs) = [] -> (tag <> None \/ live fs <> []) -> exists x, snd r = Some x /\ flat_ok x = true).
 Proof.
   intros Hc Htag H. apply bind_ok in H as (props & Hp & H). apply bind_ok in H as (flats & Hf & H).
-  rewrite (no_flats ra fs Hc) in Hf. cbn [omap_list] in Hf. inversion Hf; subst flats. clear Hf.
-  apply omap_list_ok in Hp.
+  apply omap_list_ok in Hp. apply omap_list_ok in Hf.
   assert (Hprops : forallb (fun p => head_okb (fst p) && gshape (snd p)) props = true).
-  { refine (Forall2_forallb_in _ (fun fl => field_cleanb ra fl && negb (f_skip fl)) _ _ _ _ _ Hp).
+  { refine (Forall2_forallb_in _ (fun fl => field_cleanb ra fl && negb (f_skip fl) && negb (is_flat fl)) _ _ _ _ _ Hp).
     - intros x y Hx Hy. exact (prop_of_shape ra opt x y Hx Hy).
-    - apply forallb_filter. apply forallb_live. exact Hc. }
-  destruct tag as [[t n]|]; [|destruct props as [|p ps]]; cbv beta zeta iota in H; inversion H; subst r; cbn [fst GenClean.gshape is_objb andb].
-  - cbn [tag_ok] in Htag. apply andb_true_iff in Htag as [Ht Hn]. cbn [forallb fst snd GenClean.gshape].
-    rewrite (quoted_head_ok is_alnum is_numeric t Ht), Hn, Hprops. reflexivity.
-  - reflexivity.
-  - exact Hprops.
+    - apply (forallb_filter_and (fun fl => field_cleanb ra fl && negb (f_skip fl)) (fun fl => negb (is_flat fl))). apply forallb_live. exact Hc. }
+  assert (Hflats : forallb (fun x => is_sobj x && gshape x) flats = true).
+  { refine (Forall2_forallb_in _ (fun fl => field_cleanb ra fl && negb (f_skip fl) && is_flat fl) _ _ _ _ _ Hf).
+    - intros x y Hx Hy. exact (flat_of_shape ra opt x y Hx Hy).
+    - apply (forallb_filter_and (fun fl => field_cleanb ra fl && negb (f_skip fl)) is_flat). apply forallb_live. exact Hc. }
+  assert (Htagp : forall t n, tag = Some (t, n) -> head_okb (quoted_head t) && cleanb n = true).
+  { intros t n ->. cbn [tag_ok] in Htag. apply andb_true_iff in Htag as [Ht Hn]. rewrite (quoted_head_ok is_alnum is_numeric t Ht), Hn. reflexivity. }
+  destruct flats as [|x1 flats'].
+  - (* nothing flattened *)
+    assert (Hr : r = (TMerged (TObj OStruct (match tag with Some (t, n) => (quoted_head t, TLit n) :: props | None => props end)),
+                      Some (TMerged (TObj OStruct (match tag with Some (t, n) => (quoted_head t, TLit n) :: props | None => props end))))).
+    { destruct tag as [[t n]|]; [|destruct props]; cbv beta zeta iota in H; inversion H; reflexivity. }
+    subst r. cbn [fst snd].
+    assert (Hall : forallb (fun p => head_okb (fst p) && gshape (snd p)) (match tag with Some (t, n) => (quoted_head t, TLit n) :: props | None => props end) = true).
+    { destruct tag as [[t n]|]; [|exact Hprops]. cbn [forallb fst snd GenClean.gshape]. rewrite (Htagp t n eq_refl), Hprops. reflexivity. }
+    split; [exact Hall|]. intros Hnf Hsome. eexists. split; [reflexivity|]. cbn [GenClean.gshape]. rewrite Hall, andb_true_r.
+    destruct tag as [[t n]|]; [reflexivity|]. destruct Hsome as [Hs|Hs]; [contradiction Hs; reflexivity|].
+    rewrite (filter_neg_all _ _ Hnf) in Hp. destruct props as [|p ps]; [|reflexivity]. inversion Hp as [Hl|]. contradiction Hs. symmetry. exact Hl.
+  - (* flattened structs *)
+    split; [|intros Hnf; rewrite Hnf in Hf; inversion Hf].
+    cbn [forallb] in Hflats. apply andb_true_iff in Hflats as [Hx1 Hfl'].
+    destruct tag as [[t n]|]; [|destruct props as [|p ps]]; [| destruct flats' as [|x2 flats'']|]; cbv beta zeta iota in H; inversion H; subst r; cbn [fst].
+    + cbn [GenClean.gshape is_nil negb andb forallb is_sobj fst snd]. rewrite (Htagp t n eq_refl), Hprops, Hx1, Hfl'. reflexivity.
+    + cbn [GenClean.gshape]. exact Hx1.
+    + cbn [GenClean.gshape is_nil negb andb forallb]. cbn [forallb] in Hfl'. rewrite Hx1, Hfl'. reflexivity.
+    + cbn [forallb] in Hprops. cbn [GenClean.gshape is_nil negb andb forallb is_sobj fst snd]. rewrite Hprops, Hx1, Hfl'. reflexivity.
 Qed.
 
 Lemma shape_gen_shape ra opt tag s r : shape_cleanb ra s = true -> tag_ok tag = true ->
-  shape_gen is_alnum is_numeric R inl flt args ra opt tag s = Ok r -> gshape (fst r) = true.
+  shape_gen is_alnum is_numeric R inl flt args ra opt tag s = Ok r ->
+  gshape (fst r) = true /\
+  (forall fs, s = SNamed fs -> filter is_flat (live fs) = [] -> (tag <> None \/ live fs <> []) -> exists x, snd r = Some x /\ flat_ok x = true).
 Proof.
   intros Hc Htag H. destruct s as [|fs|fs]; cbn [GenClean.shape_cleanb] in Hc.
-  - inversion H. apply null_shape.
-  - destruct fs as [|f1 [|f2 fs']].
+  - inversion H. split; [apply null_shape | discriminate].
+  - split; [|discriminate]. destruct fs as [|f1 [|f2 fs']].
     + inversion H. reflexivity.
     + cbn [shape_gen] in H. cbn [forallb] in Hc. rewrite andb_true_r in Hc. destruct (f_skip f1) eqn:Hs; [inversion H; apply null_shape|].
       apply bind_ok in H as (x & Hx & H). inversion H. cbn [fst]. apply (value_ty_shape f1 x); [|exact Hx]. rewrite Hc, Hs. reflexivity.
@@ -425,8 +587,11 @@ Proof.
       refine (Forall2_forallb_in _ (fun fl => tfield_cleanb fl && negb (f_skip fl)) _ _ _ _ _ Hl).
       * intros x y Hx Hy. exact (value_ty_shape x y Hx Hy).
       * apply forallb_live. exact Hc.
-  - destruct fs as [|f0 fs0]; destruct tag as [[t n]|]; try exact (named_body_shape ra opt _ _ r Hc Htag H).
-    inversion H. reflexivity.
+  - assert (G : (fs = [] /\ tag = None) \/ (gshape (fst r) = true /\ (filter is_flat (live fs) = [] -> (tag <> None \/ live fs <> []) -> exists x, snd r = Some x /\ flat_ok x = true))).
+    { destruct fs as [|f0 fs0]; destruct tag as [[t n]|]; try (right; exact (named_body_shape ra opt _ _ r Hc Htag H)). left. split; reflexivity. }
+    destruct G as [[-> ->]|[G1 G2]].
+    + inversion H. split; [reflexivity|]. intros fs' E _ [Hn|Hn]; [contradiction Hn; reflexivity | inversion E; subst fs'; contradiction Hn; reflexivity].
+    + split; [exact G1|]. intros fs' E. inversion E; subst fs'. exact G2.
 Qed.
 
 Lemma tag_ok_variant tg (b : bool) name : tag_cleanb tg = true -> cleanb name = true ->
@@ -444,7 +609,7 @@ Proof.
   { destruct (v_as v) as [u|].
     - exact (name_of_shape _ (rsubst_clean args Hargs _ Hrest) _ Hpa).
     - destruct (v_type v); [discriminate Hnt|]. inversion Hpa; subst parsed.
-      exact (shape_gen_shape _ _ _ _ vt Hrest (tag_ok_variant tg _ name Htg Hname) Hvt). }
+      exact (proj1 (shape_gen_shape _ _ _ _ vt Hrest (tag_ok_variant tg _ name Htg Hname) Hvt)). }
   clear Hvt Hpa Hrest.
   assert (Hq : forall k, cleanb k = true -> head_okb (quoted_head k) = true) by (intros k Hk; exact (quoted_head_ok is_alnum is_numeric k Hk)).
   destruct (v_untagged v); [inversion H; subst; exact Hparsed|].
@@ -460,16 +625,36 @@ Proof.
   - inversion H; subst; exact Hparsed.
 Qed.
 
+Lemma flat_simple_live fs : forallb (fun f => f_skip f || negb (f_flatten f)) fs = true -> filter is_flat (live fs) = [].
+Proof.
+  unfold live. induction fs as [|x l IH]; cbn [forallb filter]; intros H; [reflexivity|]. apply andb_true_iff in H as [H1 H2].
+  destruct (f_skip x) eqn:Hs; cbn [negb]; [apply IH; exact H2|]. cbn [filter orb] in *. apply negb_true_iff in H1. unfold is_flat. rewrite H1. cbn [andb].
+  apply IH. exact H2.
+Qed.
+Lemma existsb_live fs : existsb (fun f => negb (f_skip f)) fs = true -> live fs <> [].
+Proof.
+  unfold live. induction fs as [|x l IH]; cbn [existsb filter]; intros H; [discriminate|]. destruct (negb (f_skip x)); [discriminate|]. apply IH. exact H.
+Qed.
+
 Lemma def_body_shape d r : def_cleanb d = true ->
-  def_body is_upper is_alnum is_numeric R inl flt d args = Ok r -> gshape (fst r) = true.
+  def_body is_upper is_alnum is_numeric R inl flt d args = Ok r ->
+  gshape (fst r) = true /\ (flat_simple d = true -> exists x, snd r = Some x /\ flat_ok x = true).
 Proof.
   intros Hc H. destruct (def_clean_parts d Hc) as (Hnt & Hdn & Hcn & _). unfold GenClean.def_cleanb in Hc. apply andb_true_iff in Hc as [_ Hc].
-  unfold def_body in H. destruct (c_type (attrs_of d)); [discriminate Hnt|]. destruct (c_as (attrs_of d)) as [u|].
-  - apply bind_ok in H as (x & Hx & H). inversion H. cbn [fst]. exact (Hinl _ _ (rsubst_clean args Hargs _ Hc) Hx).
+  unfold def_body in H. destruct (c_type (attrs_of d)); [discriminate Hnt|]. destruct (c_as (attrs_of d)) as [u|] eqn:Has.
+  - apply bind_ok in H as (x & Hx & H). inversion H. cbn [fst]. split; [exact (Hinl _ _ (rsubst_clean args Hargs _ Hc) Hx)|].
+    intros Hfs. destruct d as [a [|fs|fs]|]; try discriminate Hfs. cbn [attrs_of] in Has. unfold flat_simple in Hfs. rewrite Has in Hfs. rewrite andb_false_r in Hfs. discriminate Hfs.
   - destruct d as [a s|a tg raf vs].
-    + apply andb_true_iff in Hc as [Ht Hs]. refine (shape_gen_shape _ _ _ _ r Hs _ H).
-      destruct (c_tag a) as [t|]; cbn [tag_ok]; [|reflexivity]. rewrite Ht, Hcn. reflexivity.
-    + apply andb_true_iff in Hc as [Htg Hvs]. destruct vs as [|v0 vs0].
+    + apply andb_true_iff in Hc as [Ht Hs].
+      assert (Htag : tag_ok (match c_tag a with Some t => Some (t, ts_ident (DStruct a s)) | None => None end) = true).
+      { destruct (c_tag a) as [t|]; cbn [tag_ok]; [|reflexivity]. rewrite Ht, Hcn. reflexivity. }
+      destruct (shape_gen_shape _ _ _ _ r Hs Htag H) as [G1 G2]. split; [exact G1|].
+      intros Hfs. destruct s as [|fs|fs]; try discriminate Hfs. unfold flat_simple in Hfs.
+      apply andb_true_iff in Hfs as [Hfs Hsome]. apply andb_true_iff in Hfs as [_ Hnofl].
+      apply (G2 fs eq_refl (flat_simple_live fs Hnofl)). apply orb_true_iff in Hsome as [Hs1|Hs1].
+      * left. destruct (c_tag a); [discriminate | discriminate Hs1].
+      * right. apply existsb_live. exact Hs1.
+    + split; [|discriminate]. apply andb_true_iff in Hc as [Htg Hvs]. destruct vs as [|v0 vs0].
       * inversion H. cbn [fst prim]. apply prim_shape; reflexivity.
       * apply bind_ok in H as (l & Hl & H). destruct l as [|x l]; inversion H; cbn [fst prim]; [apply prim_shape; reflexivity|].
         cbn [GenClean.gshape is_nil negb andb]. apply omap_list_ok in Hl.
@@ -481,11 +666,13 @@ End Def.
 
 (* ---- the knot ---- *)
 Lemma gen_shape : forall fuel id d args r, lookup R id = Some d -> forallb rty_clean args = true ->
-  gen is_upper is_alnum is_numeric R fuel d args = Ok r -> gshape (fst r) = true.
+  gen is_upper is_alnum is_numeric R fuel d args = Ok r ->
+  gshape (fst r) = true /\ (flat_simple d = true -> exists x, snd r = Some x /\ flat_ok x = true).
 Proof.
   induction fuel as [|f IH]; intros id d args r Hl Ha H; [discriminate H|]. cbn [gen] in H.
-  refine (def_body_shape _ _ _ args Ha d r (lookup_clean _ _ _ _ _ _ HR Hl) H).
-  intros t a Ht Hi. exact (lib_inline_shape _ IH t Ht a Hi).
+  refine (def_body_shape _ _ _ _ args Ha d r (lookup_clean _ _ _ _ _ _ HR Hl) H).
+  - intros t a Ht Hi. exact (lib_inline_shape _ IH t Ht a Hi).
+  - intros t x Ht Hx. exact (lib_flat_shape _ IH t Ht x Hx).
 Qed.
 
 Lemma dummies_clean a : forallb param_cleanb (c_params a) = true -> forallb rty_clean (dummies a) = true.
@@ -503,7 +690,7 @@ Proof.
   pose proof (dummies_clean _ Hps) as Hd.
   unfold decl_of in H. apply bind_ok in H as (r & Hr & H). apply bind_ok in H as (ps & Hp & H). inversion H; subst dc. clear H.
   unfold decl_ok. cbn [d_name d_params d_body d_docs]. rewrite Hdn, docs_always_ok.
-  rewrite (gshape_syn_okn is_alnum is_numeric _ (gen_shape fuel id d _ r Hl Hd Hr)). split; [|reflexivity]. rewrite andb_true_r. cbn [andb].
+  rewrite (gshape_syn_okn is_alnum is_numeric _ (proj1 (gen_shape fuel id d _ r Hl Hd Hr))). split; [|reflexivity]. rewrite andb_true_r. cbn [andb].
   apply omap_list_ok in Hp. refine (Forall2_forallb_in _ param_cleanb _ _ _ _ Hps Hp).
   intros p y Hpc Hy. unfold GenClean.param_cleanb in Hpc. apply andb_true_iff in Hpc as [H1 H2]. unfold param_ok.
   destruct (snd p) as [dflt|].
@@ -525,13 +712,13 @@ Hypothesis Hcwd : forallb cleanb cwd = true.
 
 Notation decl_nameb := (decl_nameb is_alnum is_numeric).
 Notation group_okb := (group_okb is_alnum is_numeric).
-Notation def_cleanb := (def_cleanb is_upper is_alnum is_numeric).
+Notation def_cleanb := (def_cleanb is_upper is_alnum is_numeric R).
 
 Definition dep_ok (e : dep) : bool := decl_nameb (snd (fst e)) && cleanb (snd e).
 
 Lemma output_path_clean d : def_cleanb d = true -> cleanb (output_path_of d) = true.
 Proof.
-  intros Hc. destruct (def_clean_parts _ _ _ d Hc) as (_ & _ & Hn & _). pose proof (def_clean_export _ _ _ d Hc) as He.
+  intros Hc. destruct (def_clean_parts _ _ _ _ d Hc) as (_ & _ & Hn & _). pose proof (def_clean_export _ _ _ _ d Hc) as He.
   unfold output_path_of. destruct (c_export_to (attrs_of d)) as [s|].
   - destruct (ends_with _ s); [|exact He]. rewrite !cleanb_app, He, Hn. reflexivity.
   - rewrite cleanb_app, Hn. reflexivity.
@@ -541,7 +728,7 @@ Lemma out_path_clean t p : out_path R t = Some p -> cleanb p = true /\ decl_name
 Proof.
   unfold out_path, ident_of. destruct t as [| | | | | | | | |id args| |]; try discriminate. destruct (lookup R id) as [d|] eqn:Hl; [|discriminate].
   intros H. inversion H. pose proof (lookup_clean _ _ _ _ _ _ HR Hl) as Hc. split; [apply output_path_clean; exact Hc|].
-  destruct (def_clean_parts _ _ _ d Hc) as (_ & Hn & _). exact Hn.
+  destruct (def_clean_parts _ _ _ _ d Hc) as (_ & Hn & _). exact Hn.
 Qed.
 
 Lemma dependencies_ok fuel t deps : dependencies_of R fuel t = Ok deps -> forallb dep_ok deps = true.
